@@ -50,10 +50,13 @@ VARIABLES
   released,                   \* heights whose secret left p
   nfees,
   opener,                     \* the funder: pays the commitment fee, may send update_fee
+  lwrMem,                     \* OpenChannel.LastWasRevoke IN MEMORY: read from the database when the channel is
+                              \* loaded or refreshed, never written by the state machine (only SoftReest tells it
+                              \* apart from disk[p].lwr: otherwise every reestablish follows a reload; kept FALSE)
   bad                         \* error flag (any API error that an honest run must not see)
 
 vars == <<L, R, Lidx, Lhtlc, Ridx, Rhtlc, Lmod, Rmod, LC, RC, disk, net, phase,
-          nadds, ndisc, released, nfees, opener, bad>>
+          nadds, ndisc, released, nfees, opener, lwrMem, bad>>
 
 NoCommit == [h |-> -1]
 
@@ -79,10 +82,11 @@ InitCommit == InitCommitOf("A", "A", 0)      \* the even split, either party's v
 InitDiskOf(p, o, poor) ==
             [lc |-> InitCommitOf(p, o, poor), rc |-> InitCommitOf(p, o, poor), diff |-> NoCommit, diffUpd |-> <<>>,
              ua |-> <<>>, uaSet |-> FALSE, rul |-> <<>>, lwr |-> FALSE, revlog |-> <<>>,
-             fwd |-> <<>>]
+             fwd |-> <<>>, dack |-> {}]
 InitDisk == [lc |-> InitCommit, rc |-> InitCommit, diff |-> NoCommit, diffUpd |-> <<>>,
              ua |-> <<>>, uaSet |-> FALSE, rul |-> <<>>, lwr |-> FALSE, revlog |-> <<>>,
-             fwd |-> <<>>]      \* forwarding packages: one per revoked remote height
+             fwd |-> <<>>,      \* forwarding packages: one per revoked remote height
+             dack |-> {}]       \* peer-add ids whose answer has been acked in the package of the channel it came from
 
 Init ==
   /\ L = [p \in Party |-> <<>>] /\ R = [p \in Party |-> <<>>]
@@ -95,6 +99,7 @@ Init ==
   /\ released = [p \in Party |-> {}]
   /\ nfees = 0
   /\ opener \in Openers
+  /\ lwrMem = [p \in Party |-> FALSE]
   /\ LC = [p \in Party |-> <<InitCommitOf(p, opener, PoorShare)>>]
   /\ RC = [p \in Party |-> <<InitCommitOf(p, opener, PoorShare)>>]
   /\ disk = [p \in Party |-> InitDiskOf(p, opener, PoorShare)]
@@ -193,7 +198,7 @@ Add(p, amt) ==
   /\ Lidx' = [Lidx EXCEPT ![p] = @ + 1] /\ Lhtlc' = [Lhtlc EXCEPT ![p] = @ + 1]
   /\ nadds' = [nadds EXCEPT ![p] = @ + 1]
   /\ net' = [net EXCEPT ![p] = Append(@, [k |-> "add", li |-> Lidx[p], hi |-> Lhtlc[p], amt |-> amt])]
-  /\ UNCHANGED <<R, Ridx, Rhtlc, Lmod, Rmod, LC, RC, disk, phase, ndisc, released, nfees, bad, opener>>
+  /\ UNCHANGED <<R, Ridx, Rhtlc, Lmod, Rmod, LC, RC, disk, phase, ndisc, released, nfees, bad, opener, lwrMem>>
 
 LockedIn(p, e) ==
   /\ e.aL > 0 /\ e.aR > 0 /\ e.aL <= CTail(LC[p]).h /\ e.aR <= CTail(RC[p]).h
@@ -207,7 +212,7 @@ Resolve(p, kind, id) ==
        /\ Lidx' = [Lidx EXCEPT ![p] = @ + 1]
        /\ Rmod' = [Rmod EXCEPT ![p] = @ \cup {e.hi}]
        /\ net' = [net EXCEPT ![p] = Append(@, [k |-> kind, li |-> Lidx[p], hi |-> e.hi, amt |-> e.amt])]
-  /\ UNCHANGED <<R, Lhtlc, Ridx, Rhtlc, Lmod, LC, RC, disk, phase, nadds, ndisc, released, nfees, bad, opener>>
+  /\ UNCHANGED <<R, Lhtlc, Ridx, Rhtlc, Lmod, LC, RC, disk, phase, nadds, ndisc, released, nfees, bad, opener, lwrMem>>
 
 LastFeeIdx(log) ==
   LET idxs == {i \in 1..Len(log) : IsFee(log[i])}
@@ -226,7 +231,7 @@ UpdateFee(p, r) ==
      /\ L' = [L EXCEPT ![p] = a.log] /\ Lidx' = [Lidx EXCEPT ![p] = a.idx]
   /\ nfees' = nfees + 1
   /\ net' = [net EXCEPT ![p] = Append(@, [k |-> "fee", li |-> 0, hi |-> 0, amt |-> r])]
-  /\ UNCHANGED <<R, Lhtlc, Ridx, Rhtlc, Lmod, Rmod, LC, RC, disk, phase, nadds, ndisc, released, bad, opener>>
+  /\ UNCHANGED <<R, Lhtlc, Ridx, Rhtlc, Lmod, Rmod, LC, RC, disk, phase, nadds, ndisc, released, bad, opener, lwrMem>>
 
 RecvFee(q) ==
   LET m == Head(net[Other(q)]) IN
@@ -234,7 +239,7 @@ RecvFee(q) ==
   /\ LET a == AppendFee(R[q], Ridx[q], m.amt) IN
      /\ R' = [R EXCEPT ![q] = a.log] /\ Ridx' = [Ridx EXCEPT ![q] = a.idx]
   /\ net' = [net EXCEPT ![Other(q)] = Tail(@)]
-  /\ UNCHANGED <<L, Lidx, Lhtlc, Rhtlc, Lmod, Rmod, LC, RC, disk, phase, nadds, ndisc, released, nfees, bad, opener>>
+  /\ UNCHANGED <<L, Lidx, Lhtlc, Rhtlc, Lmod, Rmod, LC, RC, disk, phase, nadds, ndisc, released, nfees, bad, opener, lwrMem>>
 
 -----------------------------------------------------------------------------
 (* sign / receive commit / revoke / receive revoke *)
@@ -250,6 +255,15 @@ AckFwd(fwd, L2, h) ==
   LET refs == UNION {AddRefs(fwd, e.hi) : e \in {x \in Elems(L2) : IsRes(x) /\ x.rR = h}} IN
   [k \in 1..Len(fwd) |-> [fwd[k] EXCEPT !.ack = @ \cup {r[2] : r \in {x \in refs : x[1] = fwd[k].h}}]]
 
+\* CommitDiff.SettleFailAcks applied by the same AppendRemoteCommitChain transaction: a settle/fail that p relays
+\* (it came back over some OUTGOING channel of p's node and sits in that channel's forwarding package) is acked
+\* THERE - SettleFailFilter bit, reference handed to SettleHTLC/FailHTLC as DestRef - as soon as a signature of
+\* ours covers it, so that the switch stops re-delivering it after a restart.  The environment decides which
+\* outgoing channel answered which add: answers to odd ids come from a channel that has been closed and wiped
+\* since (no package bucket any more: nothing to ack, and no effect on the acks owed to the surviving channel).
+DestOpen(id) == id % 2 = 0
+AckDest(dack, L2, h) == dack \cup {e.hi : e \in {x \in Elems(L2) : IsRes(x) /\ x.rR = h /\ DestOpen(x.hi)}}
+
 SignResult(p, Lp, Rp, LCp, RCp, LidxP, LhtlcP) ==
   LET ackR == CTail(LCp).ri
       ackRh == CTail(LCp).rh
@@ -260,6 +274,7 @@ SignResult(p, Lp, Rp, LCp, RCp, LidxP, LhtlcP) ==
       L2 == SetHeights(Lp, LidxP, "R", h)
       R2 == SetHeights(Rp, ackR, "R", h)
   IN [L |-> L2, R |-> R2, c |-> c, upd |-> DiffUpdates(L2, h), fwd |-> AckFwd(disk[p].fwd, L2, h),
+      dack |-> AckDest(disk[p].dack, L2, h),
       msg |-> [k |-> "sig", h |-> h, li |-> LidxP, ri |-> ackR, c |-> c]]
 
 Sign(p) ==
@@ -269,9 +284,10 @@ Sign(p) ==
      /\ L' = [L EXCEPT ![p] = s.L]
      /\ R' = [R EXCEPT ![p] = s.R]
      /\ RC' = [RC EXCEPT ![p] = Append(@, s.c)]
-     /\ disk' = [disk EXCEPT ![p].diff = s.c, ![p].diffUpd = s.upd, ![p].lwr = FALSE, ![p].fwd = s.fwd]
+     /\ disk' = [disk EXCEPT ![p].diff = s.c, ![p].diffUpd = s.upd, ![p].lwr = FALSE, ![p].fwd = s.fwd,
+                          ![p].dack = s.dack]
      /\ net' = [net EXCEPT ![p] = Append(@, s.msg)]
-  /\ UNCHANGED <<Lidx, Lhtlc, Ridx, Rhtlc, Lmod, Rmod, LC, phase, nadds, ndisc, released, nfees, bad, opener>>
+  /\ UNCHANGED <<Lidx, Lhtlc, Ridx, Rhtlc, Lmod, Rmod, LC, phase, nadds, ndisc, released, nfees, bad, opener, lwrMem>>
 
 CanRecv(q) == phase[q] = "run" /\ net[Other(q)] # <<>> /\ (Fused => Len(LC[q]) = 1)
 HeadMsg(q) == Head(net[Other(q)])
@@ -286,7 +302,7 @@ RecvAdd(q) ==
           /\ bad' = bad
      ELSE /\ bad' = "add-id-mismatch" /\ UNCHANGED <<R, Ridx, Rhtlc>>
   /\ Pop(q)
-  /\ UNCHANGED <<L, Lidx, Lhtlc, Lmod, Rmod, LC, RC, disk, phase, nadds, ndisc, released, nfees, opener>>
+  /\ UNCHANGED <<L, Lidx, Lhtlc, Lmod, Rmod, LC, RC, disk, phase, nadds, ndisc, released, nfees, opener, lwrMem>>
 
 RecvRes(q) ==
   LET m == HeadMsg(q) IN
@@ -298,7 +314,7 @@ RecvRes(q) ==
           /\ bad' = bad
      ELSE /\ bad' = "res-unknown-or-dup" /\ UNCHANGED <<R, Ridx, Lmod>>
   /\ Pop(q)
-  /\ UNCHANGED <<L, Lidx, Lhtlc, Rhtlc, Rmod, LC, RC, disk, phase, nadds, ndisc, released, nfees, opener>>
+  /\ UNCHANGED <<L, Lidx, Lhtlc, Rhtlc, Rmod, LC, RC, disk, phase, nadds, ndisc, released, nfees, opener, lwrMem>>
 
 RecvSig(q) ==
   LET m == HeadMsg(q)
@@ -323,7 +339,7 @@ RecvSig(q) ==
           /\ bad' = bad
      ELSE /\ bad' = "invalid-commit-sig" /\ UNCHANGED <<L, R, LC>>
   /\ Pop(q)
-  /\ UNCHANGED <<Lidx, Lhtlc, Ridx, Rhtlc, Lmod, Rmod, RC, disk, phase, nadds, ndisc, released, nfees, opener>>
+  /\ UNCHANGED <<Lidx, Lhtlc, Ridx, Rhtlc, Lmod, Rmod, RC, disk, phase, nadds, ndisc, released, nfees, opener, lwrMem>>
 
 Revoke(q) ==
   LET newTail == LC[q][2]
@@ -338,7 +354,7 @@ Revoke(q) ==
         ![q].rul = SeqFilter(@, LAMBDA e : e.li >= newTail.li)]
   /\ released' = [released EXCEPT ![q] = @ \cup {oldH}]
   /\ net' = [net EXCEPT ![q] = Append(@, [k |-> "rev", h |-> oldH])]
-  /\ UNCHANGED <<L, R, Lidx, Lhtlc, Ridx, Rhtlc, Lmod, Rmod, RC, phase, nadds, ndisc, nfees, bad, opener>>
+  /\ UNCHANGED <<L, R, Lidx, Lhtlc, Ridx, Rhtlc, Lmod, Rmod, RC, phase, nadds, ndisc, nfees, bad, opener, lwrMem>>
 
 RecvRev(p) ==
   LET m == HeadMsg(p)
@@ -372,7 +388,7 @@ RecvRev(p) ==
      ELSE /\ bad' = "unexpected-revocation"
           /\ UNCHANGED <<RC, disk, L, R, Rmod, Lmod>>
   /\ Pop(p)
-  /\ UNCHANGED <<Lidx, Lhtlc, Ridx, Rhtlc, LC, phase, nadds, ndisc, released, nfees, opener>>
+  /\ UNCHANGED <<Lidx, Lhtlc, Ridx, Rhtlc, LC, phase, nadds, ndisc, released, nfees, opener, lwrMem>>
 
 -----------------------------------------------------------------------------
 (* restore from disk: transcription of restoreCommitState / restoreStateLogs *)
@@ -446,6 +462,7 @@ Disconnect ==
   /\ RC' = [p \in Party |-> Restored(p).RC]
   /\ net' = [p \in Party |-> <<>>]
   /\ phase' = [p \in Party |-> "sync0"]
+  /\ lwrMem' = IF SoftReest THEN [p \in Party |-> disk[p].lwr] ELSE lwrMem
   /\ UNCHANGED <<disk, nadds, released, nfees, bad, opener>>
 
 \* API level only (~Fused): channel_reestablish processed on LIVE channel objects - the transport
@@ -458,14 +475,26 @@ SoftDisconnect ==
   /\ ndisc' = ndisc + 1
   /\ net' = [p \in Party |-> <<>>]
   /\ phase' = [p \in Party |-> "sync0"]
-  /\ UNCHANGED <<L, R, Lidx, Lhtlc, Ridx, Rhtlc, Lmod, Rmod, LC, RC, disk, nadds, released, nfees, bad, opener>>
+  /\ UNCHANGED <<L, R, Lidx, Lhtlc, Ridx, Rhtlc, Lmod, Rmod, LC, RC, disk, nadds, released, nfees, bad, opener, lwrMem>>
+
+\* channelLink.UpdateShortChanID -> OpenChannel.Refresh(): the state of a LIVE channel is re-read from the
+\* database (the funding tx of a zero-conf channel confirms) and the state machine continues on the refreshed
+\* objects.  Nothing the state machine keeps changes; the plain fields of OpenChannel are overwritten with
+\* what is on disk (LastWasRevoke is the only one the model tells apart).
+LiveRefresh(p) ==
+  /\ lwrMem' = IF SoftReest THEN [lwrMem EXCEPT ![p] = disk[p].lwr] ELSE lwrMem
+  /\ UNCHANGED <<L, R, Lidx, Lhtlc, Ridx, Rhtlc, Lmod, Rmod, LC, RC, disk, net, phase, nadds, ndisc, released,
+                 nfees, bad, opener>>
+
+\* the retransmission order ProcessChanSyncMsg uses: the in-memory flag
+LwrOf(q) == IF SoftReest THEN lwrMem[q] ELSE disk[q].lwr
 
 SendReest(p) ==
   /\ phase[p] = "sync0"
   /\ phase' = [phase EXCEPT ![p] = "sync1"]
   /\ net' = [net EXCEPT ![p] = Append(@, [k |-> "reest", next |-> disk[p].lc.h + 1,
                                             tail |-> disk[p].rc.h])]
-  /\ UNCHANGED <<L, R, Lidx, Lhtlc, Ridx, Rhtlc, Lmod, Rmod, LC, RC, disk, nadds, ndisc, released, nfees, bad, opener>>
+  /\ UNCHANGED <<L, R, Lidx, Lhtlc, Ridx, Rhtlc, Lmod, Rmod, LC, RC, disk, nadds, ndisc, released, nfees, bad, opener, lwrMem>>
 
 \* ProcessChanSyncMsg at q for message m from p
 RecvReest(q) ==
@@ -491,7 +520,7 @@ RecvReest(q) ==
                     THEN updMsgs \o <<[k |-> "sig", h |-> disk[q].diff.h, li |-> disk[q].diff.li,
                                        ri |-> disk[q].diff.ri, c |-> disk[q].diff]>>
                     ELSE <<>>
-      out == IF oweCommit /\ disk[q].lwr THEN commitMsgs \o first ELSE first \o commitMsgs
+      out == IF oweCommit /\ LwrOf(q) THEN commitMsgs \o first ELSE first \o commitMsgs
   IN
   /\ phase[q] = "sync1" /\ net[p] # <<>> /\ m.k = "reest"
   /\ net' = [net EXCEPT ![p] = Tail(@), ![q] = @ \o (IF err1 \/ err2 THEN <<>> ELSE out)]
@@ -500,12 +529,13 @@ RecvReest(q) ==
   /\ IF canSign /\ ~(err1 \/ err2)
      THEN /\ L' = [L EXCEPT ![q] = s.L] /\ R' = [R EXCEPT ![q] = s.R]
           /\ RC' = [RC EXCEPT ![q] = Append(@, s.c)]
-          /\ disk' = [disk EXCEPT ![q].diff = s.c, ![q].diffUpd = s.upd, ![q].lwr = FALSE, ![q].fwd = s.fwd]
+          /\ disk' = [disk EXCEPT ![q].diff = s.c, ![q].diffUpd = s.upd, ![q].lwr = FALSE, ![q].fwd = s.fwd,
+                               ![q].dack = s.dack]
      ELSE UNCHANGED <<L, R, RC, disk>>
   /\ IF oweRev /\ ~(err1 \/ err2)
      THEN released' = [released EXCEPT ![q] = @ \cup {localTail - 1}]
      ELSE UNCHANGED released
-  /\ UNCHANGED <<Lidx, Lhtlc, Ridx, Rhtlc, Lmod, Rmod, LC, nadds, ndisc, nfees, opener>>
+  /\ UNCHANGED <<Lidx, Lhtlc, Ridx, Rhtlc, Lmod, Rmod, LC, nadds, ndisc, nfees, opener, lwrMem>>
 
 -----------------------------------------------------------------------------
 Next ==
@@ -544,6 +574,15 @@ FwdPkgsComplete ==
          LET id == disk[p].fwd[k].adds[i + 1] IN
          \/ \E j \in 1..Len(L[p]) : IsRes(L[p][j]) /\ L[p][j].hi = id /\ L[p][j].rR > 0
          \/ ~HasAdd(R[p], id)      \* already compacted away: resolved on both chains
+
+\* C02 (the destination side of the same bookkeeping): the answer to a peer add is acked in the package of the
+\* channel it came from exactly when a signature of ours covers it - not before (a crash would lose the answer),
+\* not later (it would be replayed into the switch on every start), whatever became of OTHER outgoing channels
+DestAcksExact ==
+  \A p \in Party : bad = "none" =>
+    /\ \A j \in 1..Len(L[p]) : LET e == L[p][j] IN
+         (IsRes(e) /\ DestOpen(e.hi)) => (e.hi \in disk[p].dack <=> e.rR > 0)
+    /\ \A id \in disk[p].dack : DestOpen(id) /\ id < Rhtlc[p]
 
 \* C06: secrets leave in height order, without gaps or repeats
 SecretsInOrder == \A p \in Party : \A h \in released[p] : \A g \in 0..h : g \in released[p]
